@@ -5,14 +5,20 @@ PLAN_THOROUGH = [('ctx', ['v1', 'v4', 'lazy1']), ('exc', ['v1', 'v0', 'v4', 'laz
 
 
 def units(tier, seed):
-    return corpus.units(PLAN_QUICK if tier == "quick" else PLAN_THOROUGH, tier, seed)
+    import os
+    import vlib
+    from vlib import Unit
+    src = os.path.join(vlib.VERIF, "cpp", "drivers", "c05_names.cpp")
+    # rule names with characters the name extraction could trip over; one build per compiler (demangle.hpp has one code path each)
+    names = [Unit("c05_names_gcc", src=src, kind="plain", shards=1, sharded=False), Unit("c05_names_clang", src=src, kind="cl0", shards=1, sharded=False)]
+    return names + corpus.units(PLAN_QUICK if tier == "quick" else PLAN_THOROUGH, tier, seed)
 
 
 SPEC = {
     "units": units,
     "finish": {
         "rule": "cases = (grammar, input, configuration) over grammars with must/if_must/if_must_else/opt_must/star_must/list_must/raise/try_catch_* and throwing actions (std-derived and non-std exception types) nested in predicates, repetitions and choices. Oracle: exception kind, blamed rule (message), nesting depth and try_catch conversion must equal the reference interpreter's; the position must lie inside the failed attempt observed by the wrapper, be the position function of the prefix, and what() must be source:line:column: message; foreign exceptions must arrive with the serial number they were thrown with. Non-trivial: reference needed more than 3 steps.",
-        "floors": {'run:parse_error': 1000, 'run:foreign-exception': 50, 'hook:raise': 1000},
+        "floors": {'run:parse_error': 1000, 'run:foreign-exception': 50, 'hook:raise': 1000, 'names:default-message': 38, 'names:custom-message': 4},
         "assumptions": ["reference interpreter's evaluation order is the PEG evaluation order"],
     },
 }
